@@ -286,6 +286,14 @@ let dispatch_ext (op : string) (a : string array) : unit =
     let x = m 1 in
     let kk = if i 2 = 0 then m4ri_auto_k (nri x) (nci x) else i 2 in
     k.set_mat a.(1) (tb_opt (x_tb_top (ni kk) x))
+  (* ------------------------------------------------------------------ C13: row combination from word offsets *)
+  | "combine" | "combine_even" ->
+    (* combine C cr csb A ar asb B br bsb ; "same" = the pointer comparison C == A of mzd_combine *)
+    let same = op = "combine" && a.(1) = a.(4) in
+    k.set_mat a.(1) (x_combine same (m 1) (m 4) (m 7) (ni (i 2)) (ni (i 3)) (ni (i 5)) (ni (i 6)) (ni (i 8)) (ni (i 9)))
+  | "combine_even_in_place" ->
+    (* combine_even_in_place A ar asb B br bsb *)
+    k.set_mat a.(1) (x_combine true (m 1) (m 1) (m 4) (ni (i 2)) (ni (i 3)) (ni (i 2)) (ni (i 3)) (ni (i 5)) (ni (i 6)))
   (* ------------------------------------------------------------------ Tier B: C03 *)
   | "tb__ple_russian" | "tb__pluq_russian" ->
     (* _ple_russian A P Q k : the lazy pivot search on the window, the 1..7 tables with M / E / B, k as in C *)
